@@ -311,6 +311,9 @@ theorem C12_trip_count_sound (t : TFlags) (isNEQ isUp isInc : Bool) (iv : Induct
     (hterm : isNEQ = true → ∃ m, (Counted.mk s d L .ne).runs m) :
     0 ≤ n ∧ (Counted.mk s d L (cmpOfFlags isUp isInc isNEQ)).runs n.toNat := by
   unfold decideTripCount at hdec
+  by_cases hgate : (narrowBoundMayWrap t iv.start || narrowBoundMayWrap t limit) = true
+  · rw [if_pos hgate] at hdec; cases hdec; simp [SCEV.eval] at hn
+  rw [if_neg hgate] at hdec
   cases hdc : directionCheck isNEQ isUp isInc iv limit with
   | done tc' =>
     rw [hdc] at hdec
